@@ -60,11 +60,12 @@ CHECKS = {
                      "6-8 sector bitmap window per non-base layer at bit offsets 0/3/5, across the block boundary and in the "
                      "second chunk; VMDK delta chains with hosted, SE-sparse and multi-extent children; Parallels snapshot "
                      "chains with TopGUID absent/default/explicit, Plain base and open(guid) for every shot; QCOW2 backing "
-                     "chains with standard and extended L2 and internal snapshot views read interleaved; VDI parents) over "
+                     "chains with standard and extended L2 and internal snapshot views read interleaved; VDI parents; for VDI, Parallels, "
+                     "VMDK, VHDX and QCOW2 also chains whose ancestors are one unit shorter than their child) over "
                      "every per-layer allocation map of the bound, read with boundary requests and compared with the top-down "
                      "overlay fold; plus the parent-location configurations (resolvable -> reads through, unresolvable -> "
                      "constructor raises, opt-out -> zeros).",
-                note="trusted: builders of C01-C06, overlay fold in mc/models.py; layers of a chain have equal virtual size; "
+                note="trusted: builders of C01-C06, overlay fold in mc/models.py; layers of a chain have equal virtual size except in the `-grown` sub-spaces; "
                      "VHDX undefined/unmapped states are not used under a parent"),
     "C08": dict(level=MC, ref="DESIGN.md section 4 C08",
                 text="For every stream class (QCow2, snapshot view, VMDK sparse/flat/multi-extent, VHDX, VHD fixed/dynamic, "
@@ -76,7 +77,7 @@ CHECKS = {
                      "longer than the depth bound are covered only by the sweeps; thread-safety not in scope",
                 technique="exhaustive history-tree exploration of the real stream objects against a history-free model"),
     "C10": dict(level=MC, ref="DESIGN.md section 4 C10",
-                text="Real descriptor-driven disks with 1-3 extents of every kind (FLAT, VMFS, SPARSE, VMFSSPARSE, SESPARSE) x "
+                text="Real descriptor-driven disks with 1-3 extents of every kind (FLAT, VMFS, SPARSE, VMFSSPARSE, SESPARSE, ZERO) x "
                      "sizes x access x file names, VMDK([handles]) lists and Parallels descriptors with 1-3 storages in every XML "
                      "order are opened through the public constructors; size, sector_count and every boundary (sector,count) / "
                      "byte request around the extent boundaries are compared with the concatenation of per-extent models; flat "
@@ -87,7 +88,8 @@ CHECKS = {
                      "(low, > 2^32 bytes, > 2^32 sectors, top of the field range) x allocation density x request is served from "
                      "a metering sparse virtual file: content at the extreme offsets must be right, bytes requested during open + "
                      "read must stay within 2*metadata + 4*request + 64 KiB, a densely allocated image must cost exactly the same "
-                     "I/O as a nearly empty one with the same tables, and no payload the request does not map to may be touched.",
+                     "I/O as a nearly empty one with the same tables, and no payload the request does not map to may be touched; "
+                     "allocation units of 8 MiB (VMDK grains) and 2 MiB (QCOW2 clusters) included.",
                 note="trusted: I/O meter in mc/vfile.SparseFile, builders; the bound uses ALL mapping metadata because eager table "
                      "loading is allowed by the statement",
                 technique="exhaustive enumeration of scale x placement x density x request configurations on the real readers with an I/O meter"),
@@ -162,14 +164,15 @@ CHECKS = {
     "C11": dict(level=FE, ref="DESIGN.md section 4 C11",
                 text="For one minimal valid seed per structural variant of every parser, every field of its field map x fault value "
                      "(0, 1, 2, max, max-1, +-1, x2, own offset, offsets of other structures), every truncation point, every "
-                     "table-entry alias pair and explicit cycle / bomb / invalid-bitmap inputs are opened and read under a "
+                     "table-entry alias pair and explicit cycle / bomb / invalid-bitmap / shortened-storage / oversized-table inputs are opened and read under a "
                      "deterministic step meter (sys.monitoring), a tracemalloc memory meter and a watchdog; the call must return "
                      "or raise within budgets that are linear in input + request size.",
                 note="trusted: sys.monitoring / tracemalloc; 'all byte strings' is replaced by the structured single-fault space; C "
                      "extension time is bounded only by the watchdog",
                 technique="exhaustive single-fault enumeration over field maps under step / memory meters"),
     "C12": dict(level=FE, ref="DESIGN.md section 4 C12",
-                text="A gate table lists every validated magic, signature, GUID, version, geometry value, feature flag and "
+                text="A gate table lists every magic, signature, GUID, version, geometry value, feature flag (incl. the feature bits, "
+                     "compression methods, required regions / items and extent kinds a parser does not know) and "
                      "identifier of every parser; per gate every single-bit flip (magics / GUIDs), every value 0..255 + bit flips "
                      "+ max (numeric fields) and every string at edit distance 1 (identifiers) is applied to an otherwise valid "
                      "input: values outside the accepted set must make the open / unlock call raise, values inside it and the "
